@@ -50,6 +50,22 @@ func TestC18(t *testing.T) {
 			}
 		}
 	}
+	// a plugin that acknowledges the Shutdown request before it stops serving (the reply reaches the host)
+	for _, mux := range []bool{false, true} {
+		for _, tl := range []string{"none", "auto"} {
+			for _, h := range [][]string{nil, {"callback"}, {"revcallback"}, {"print:b", "callback"}} {
+				ops := append([]string{"new", "start", "client", "dispense"}, h...)
+				ops = append(ops, "kill")
+				cells = append(cells, Cell{
+					Name:     fmt.Sprintf("grpc mux=%v tls=%s launch=cmd history=[%s] plugin acknowledges Shutdown", mux, tl, strings.Join(h, ",")),
+					Plugin:   PluginConf{CookieKey: cookieKey, CookieValue: cookieVal, Legacy: 1, LegacyProto: "grpc", GRPCServer: true, TLS: "none", ExitMarker: "auto", AckShutdown: true},
+					Host:     HostConf{Allowed: []string{"netrpc", "grpc"}, TLS: tl, Mux: mux, Launch: "cmd", Legacy: 1, SkipHostEnv: true},
+					Ops:      ops,
+					LeakWait: 7000,
+				})
+			}
+		}
+	}
 	// the other order: the plugin has already exited gracefully (a second, reattached client shut it down) when
 	// the first client is killed; the first client's resources must be released all the same
 	for _, proto := range []string{"netrpc", "grpc"} {
